@@ -329,7 +329,12 @@ var subC05 = core.NewSub("C05/encode", func(w *core.Worker, c ptEncCase) *core.F
 	raw := alpha.PointRaw(p)
 	got := p.Bytes()
 	if alpha.PointRaw(p) != raw {
-		return core.Failf("Bytes modified the point")
+		// a representation-only rewrite is not this property's business, but
+		// the point must still be the same valid point afterwards
+		if f := pointMatches(p, c.P.model()); f != nil {
+			return core.Failf("Bytes() changed the point it encodes: %s", f.Msg)
+		}
+		w.Distinct("bytes-rewrote-representation", []byte{1})
 	}
 	if !bytes.Equal(got, c.P.Enc) {
 		return core.Failf("Bytes() of %s [form %d via %s] = %x", c.P.Enc, c.P.Form, c.Via, got)
